@@ -409,15 +409,25 @@ def ds_case(hist):
                 return out, k, None
         return out, len(hist) - 1, int(o.a)
     st = {}
-    for x in explore(run, bound=None, cap=6000, state=st):
-        out, k, a = x.obs
-        cnt["executions"] += 1
-        cnt["env_transitions"] += len(x.trace)
-        if out[0] != "ok":
-            viol.append({"subcheck": "unexpected_failure", "case": {"ds_hist": list(hist), "choices": x.choices}, "observed": list(out),
-                         "expected": "returns", "what": "dynamic blocks with softs, inline history %r: call %d ended with %r" % (list(hist), k, out)})
-            break
-        reached.add(a)
+    try:
+        for x in explore(run, bound=None, cap=6000, state=st):
+            out, k, a = x.obs
+            cnt["executions"] += 1
+            cnt["env_transitions"] += len(x.trace)
+            if out[0] != "ok":
+                viol.append({"subcheck": "unexpected_failure", "case": {"ds_hist": list(hist), "choices": x.choices}, "observed": list(out),
+                             "expected": "returns", "what": "dynamic blocks with softs, inline history %r: call %d ended with %r" % (list(hist), k, out)})
+                break
+            reached.add(a)
+    except common.HarnessError as e:
+        # every execution builds a FRESH object and replays a prefix of recorded answers: if the same answers lead to
+        # another sequence of questions, the calls depend on objects of earlier executions (a dynamic reference bound
+        # to another instance) - which is what C06 forbids
+        viol.append({"subcheck": "call_depends_on_other_instances", "case": {"ds_hist": list(hist), "choices": None},
+                     "observed": str(e)[:160], "expected": "a fresh object behaves the same under the same answers",
+                     "what": "dynamic blocks, inline history %r on a fresh object: %s - the call is influenced by instances "
+                             "created in earlier executions" % (list(hist), str(e)[:120])})
+        return {"viol": viol, "cnt": cnt, "capped": False}
     exp = DS_SCN[hist[-1]][1]
     if not viol and not st.get("capped") and reached != exp:
         viol.append({"subcheck": "inline_or_class_constraint_violated" if reached - exp else "solution_unreachable",
